@@ -11,6 +11,9 @@ T = []          # list of template dicts, filled below
 BY_ID = {}
 
 
+NAMEVAR = {}
+
+
 def tmpl(id, client, targets, tier="q", fresh=None, cost=1, text=True, fp=True):
     """decorator: register a request template"""
     def deco(fn):
@@ -125,7 +128,12 @@ def _gs_templates(v, s):
             _mk(o, bk)
     amps = [(1, "pphh", "ijab", "q"), (1, "pphh", "klcd", "q"), (2, "ph", "ia", "q"),
             (2, "ph", "jb", "q"), (1, "pphh", "i1j1a2b2", "q"), (2, "pphh", "ijab", "t"),
-            (1, "ph", "ia", "q"), (2, "ph", "k3c3", "q")]
+            (1, "ph", "ia", "q"), (2, "ph", "k3c3", "q"), (1, "pphh", "jiab", "q"),
+            (2, "ph", "ja", "q")]
+    NAMEVAR[f"{tag}.amplitude(1,pphh,ijab)"] = [f"{tag}.amplitude(1,pphh,{x})"
+                                                for x in ("klcd", "jiab", "i1j1a2b2")]
+    NAMEVAR[f"{tag}.amplitude(2,ph,ia)"] = [f"{tag}.amplitude(2,ph,{x})"
+                                            for x in ("jb", "ja", "k3c3")]
     for o, sp, idx, tier in amps:
         def _mk(o, sp, idx, tier):
             @tmpl(f"{tag}.amplitude({o},{sp},{idx})", c, idx, tier=tier,
@@ -221,6 +229,58 @@ _isr_templates("mp", "ip", "h", "i", "j")
 _isr_templates("mp", "ea", "p", "a", "b")
 _isr_templates("re", "pp", "ph", "ia", "jb", orders=(0, 1), tier="t")
 _isr_templates("mp", "dip", "hh", "ij", "kl", orders=(0, 1), tier="t")
+
+
+# the same request with other target index names: the two slots exchanged, crossed,
+# chained, disjoint, and a permutation within a slot.  NAMEVAR[base id] = variant ids.
+
+
+def _namevar_templates(v, kind, space, base, variants, orders, tier="q"):
+    c = f"{v}.{kind}"
+    block = f"{space},{space}"
+    for o in orders:
+        for meth, obj, tg in (("overlap_precursor", "isr", f"isr.{c}"),
+                              ("s_root", "isr", f"isr.{c}"),
+                              ("precursor_matrix_block", "m", f"m.{c}"),
+                              ("isr_matrix_block", "m", f"m.{c}")):
+            if obj == "m" and (o > 1 or kind not in ("pp", "ip")):
+                continue
+            if meth == "s_root" and o == 0:
+                continue
+            base_id = f"{tg}.{meth}({o},{block},{base[0]},{base[1]})"
+            if base_id not in BY_ID:
+                continue
+            for a, b in variants:
+                def _mk(o, meth, obj, a, b):
+                    vid = f"{tg}.{meth}({o},{block},{a},{b})"
+                    NAMEVAR.setdefault(base_id, []).append(vid)
+
+                    @tmpl(vid, c, a + b, tier=tier, cost=2 if o == 2 else 1)
+                    def _(w):
+                        o_ = w.isr(v, kind) if obj == "isr" else w.m(v, kind)
+                        return w.call(o_, meth, o, block, f"{a},{b}")
+                _mk(o, meth, obj, a, b)
+
+
+_namevar_templates("mp", "pp", "ph", ("ia", "jb"),
+                   [("jb", "ia"), ("ja", "ib"), ("jb", "kc"), ("kc", "ld")], (1, 2))
+_namevar_templates("mp", "ip", "h", ("i", "j"), [("j", "i"), ("j", "k"), ("k", "l")], (1, 2))
+_namevar_templates("mp", "ea", "p", ("a", "b"), [("b", "a"), ("b", "c")], (2,))
+
+
+@tmpl("isr.mp.pp.overlap_precursor(0,pphh,pphh,ijab,klcd)", "mp.pp", "ijabklcd")
+def _(w): return w.call(w.isr("mp", "pp"), "overlap_precursor", 0, "pphh,pphh", "ijab,klcd")
+
+
+for _a, _b in (("jiab", "klcd"), ("klcd", "ijab"), ("ijba", "lkcd"), ("ikac", "jlbd")):
+    def _mk(a, b):
+        vid = f"isr.mp.pp.overlap_precursor(0,pphh,pphh,{a},{b})"
+        NAMEVAR.setdefault("isr.mp.pp.overlap_precursor(0,pphh,pphh,ijab,klcd)", []).append(vid)
+
+        @tmpl(vid, "mp.pp", a + b)
+        def _(w): return w.call(w.isr("mp", "pp"), "overlap_precursor", 0, "pphh,pphh",
+                                f"{a},{b}")
+    _mk(_a, _b)
 
 
 # ----------------------------------------------------------------------------- secular matrix
